@@ -104,7 +104,7 @@ def plain_to_tuple(p):
 
 def create_map(node, namespaces):
     from _delb.names import Namespaces
-    ns = Namespaces(namespaces or Namespaces({"": node.namespace}))
+    ns = Namespaces(Namespaces({"": node.namespace}) if namespaces is None else namespaces)
     return [(k, ns[k] or "") for k in ns]
 
 
